@@ -1,8 +1,8 @@
 import vlib
 
 CFG = dict(
-    imports=["From Verif.C31 Require Import Model Spec."],
-    checker="check_case",
+    imports=["From Verif.C31 Require Import Model Spec Split."],
+    checker="check_any",
     n=dict(quick=150, thorough=3000),
     shard=50,
     rule="two scripted scenarios (every rule field referencing an IP set, reference changes under a connected workload, "
